@@ -248,17 +248,21 @@ def coq_sample(glue_module, pairs, workdir, tag):
 
 
 # ---------------------------------------------------------------- transcripts
-def read_transcript(path):
+def read_transcript(path, partial_ok=False):
+    """partial_ok: the harness process was taken down by the implementation under test (fatal out-of-memory):
+    the last line may be cut short and is dropped"""
     rows = []
     with open(path, encoding="latin-1") as f:
-        for line in f:
-            line = line.rstrip("\n")
-            if not line:
-                continue
-            parts = line.split("\t")
-            if len(parts) != 3:
-                raise Infra("malformed transcript line: %r" % line[:200])
-            rows.append(parts)
+        lines = f.read().split("\n")
+    for i, line in enumerate(lines):
+        if not line:
+            continue
+        parts = line.split("\t")
+        if len(parts) != 3:
+            if partial_ok and i == len(lines) - 1:
+                break
+            raise Infra("malformed transcript line: %r" % line[:200])
+        rows.append(parts)
     return rows
 
 
